@@ -32,7 +32,8 @@ RULE = (
 )
 MUST_HIT = ["skip_between_samples", "empty_slice", "lazy_reader", "wav_sw1", "wav_sw4", "placeholder_name",
             "exists_refused", "numpy_multichannel", "to_file_byteslike", "skip_beyond_65536_samples", "explicit_format", "to_file_typed_array", "more_than_1MiB", "same_path_rewritten",
-            "numpy_export_modified_then_exported_again", "raw_content_starting_with_a_wav_header", "snapshot_of_16MiB_or_more"]
+            "numpy_export_modified_then_exported_again", "raw_content_starting_with_a_wav_header", "snapshot_of_16MiB_or_more", "dot_in_a_directory_name",
+            "relative_path_with_dots", "both_names_short_first"]
 ASSUMPTIONS = ["files are re-read with stdlib wave/open to judge the writer independently of the reader"]
 BOUNDS = {"quick": dict(n=500, maxN=200), "thorough": dict(n=6000, maxN=1500)}
 _ctr = [0]
@@ -111,8 +112,21 @@ def check_case(case, rec):
     if case.get("other_fs") and other_filesystem_dir():
         base_dir = other_filesystem_dir()
         classes.add("directory_on_another_filesystem_than_tmp")
-    d = os.path.join(base_dir, f"c18_{os.getpid()}_{_ctr[0]}")
+    dname = f"c18_{os.getpid()}_{_ctr[0]}"
+    if case.get("dotted_dir"):
+        # a dot in a directory of the path is not an extension of the file
+        dname = f"session.2024-05-17.{os.getpid()}.{_ctr[0]}"
+        classes.add("dot_in_a_directory_name")
+    d = os.path.join(base_dir, dname)
     os.makedirs(d, exist_ok=True)
+    cwd0 = None
+    if case.get("relative_dot"):
+        cwd0 = os.getcwd()
+        os.chdir(d)
+        d_arg = "." if case["relative_dot"] == 1 else os.path.join("..", dname)
+        classes.add("relative_path_with_dots")
+    else:
+        d_arg = d
     fmt = case["fmt"]
     how = case["fmt_how"]
     ext = {"ext": "." + fmt, "ext_upper": "." + fmt.upper(), "explicit": ".bin", "explicit_wave": ".xyz",
@@ -128,7 +142,7 @@ def check_case(case, rec):
     # format that would (legitimately) be read as the extension -> no template there
     tmpl = case.get("tmpl") if (writer == "save_str" and start is not None and how != "noext") else None
     stem = tmpl if tmpl else "file"
-    name_t = os.path.join(d, stem + ext)
+    name_t = os.path.join(d_arg, stem + ext)
     dur = N / sr
     expected_name = name_t.format(start=start, end=(start + dur) if start is not None else None, duration=dur) if writer == "save_str" else name_t
     if tmpl:
@@ -156,7 +170,15 @@ def check_case(case, rec):
                 payload = {"bytes": data, "bytearray": bytearray(data), "memoryview": memoryview(data)}[dk]
             if dk != "bytes":
                 classes.add("to_file_byteslike")
-            to_file(payload, name_t, audio_format, sampling_rate=sr, sample_width=sw, channels=ch)
+            if case.get("both_names"):
+                # both spellings given with different values: the long name wins, whatever the order
+                wrong = dict(sr=sr * 2 + 1, sw={1: 2, 2: 4, 4: 1}[sw], ch=ch + 1)
+                right = dict(sampling_rate=sr, sample_width=sw, channels=ch)
+                pkw = {**wrong, **right} if case["both_names"] == "short_first" else {**right, **wrong}
+                classes.add("both_names_" + case["both_names"])
+            else:
+                pkw = dict(sampling_rate=sr, sample_width=sw, channels=ch)
+            to_file(payload, name_t, audio_format, **pkw)
             ret = name_t
         else:
             arg = Path(name_t) if writer == "save_path" else name_t
@@ -172,7 +194,8 @@ def check_case(case, rec):
                 raise Violation("FileExistsError although the file did not exist or exists_ok=True", case)
             if pre and not exists_ok:
                 raise Violation("exists_ok=False overwrote an existing file", case)
-            if str(ret) != expected_name:
+            # (a pathlib.Path spells "./file" as "file": names are compared up to that normalisation)
+            if str(ret) != expected_name and not (writer == "save_path" and os.path.normpath(str(ret)) == os.path.normpath(expected_name)):
                 raise Violation(f"save returned {str(ret)!r}, expected {expected_name!r}", case)
         path = expected_name
         if not os.path.exists(path):
@@ -200,7 +223,13 @@ def check_case(case, rec):
         elif how == "noext":
             rkw["audio_format"] = "raw"
         if fmt == "raw":
-            rkw.update(sampling_rate=sr, sample_width=sw, channels=ch)
+            if case.get("both_names"):
+                wrong = dict(sr=sr * 2 + 1, sw={1: 2, 2: 4, 4: 1}[sw], ch=ch + 1)
+                right = dict(sampling_rate=sr, sample_width=sw, channels=ch)
+                rkw.update({**wrong, **right} if case["both_names"] == "short_first" else {**right, **wrong})
+                classes.add("both_names_" + case["both_names"])
+            else:
+                rkw.update(sampling_rate=sr, sample_width=sw, channels=ch)
         lazy = reader in ("from_file_lazy", "load_lazy")
         if lazy:
             rkw["large_file"] = True
@@ -316,6 +345,8 @@ def check_case(case, rec):
             classes.add("more_than_1MiB")
         rec.note(case, N > 0 and (sw != 2 or ch > 1), classes, out={"file": os.path.basename(path), "read": len(got) // bps})
     finally:
+        if cwd0 is not None:
+            os.chdir(cwd0)
         for fn_ in os.listdir(d):
             try:
                 os.remove(os.path.join(d, fn_))
@@ -352,6 +383,14 @@ def explicit_cases():
         dict(base, fmt="raw", riff_prefix=True, N=6, sw=2, ch=1, reader="from_file_eager", tmpl=None),
         dict(base, fmt="raw", riff_prefix=True, N=200, sw=2, ch=2, reader="from_file_lazy", tmpl=None),
         dict(base, other_fs=True),
+        dict(base, fmt="raw", fmt_how="noext", dotted_dir=True, tmpl=None, writer="to_file", reader="from_file_eager"),
+        dict(base, fmt="raw", fmt_how="noext", dotted_dir=True, tmpl=None, writer="save_str", reader="load", skip=None, mr=None),
+        dict(base, fmt="raw", fmt_how="noext", relative_dot=1, tmpl=None, writer="save_path", reader="load_lazy", skip=None, mr=None),
+        dict(base, fmt="raw", fmt_how="noext", relative_dot=2, tmpl=None, writer="to_file", reader="from_file_lazy"),
+        dict(base, fmt="wav", fmt_how="ext", dotted_dir=True, relative_dot=2, tmpl=None),
+        dict(base, writer="to_file", both_names="short_first", tmpl=None), dict(base, writer="to_file", both_names="long_first", tmpl=None),
+        dict(base, fmt="raw", writer="to_file", both_names="short_first", reader="load", tmpl=None),
+        dict(base, fmt="raw", writer="save_str", both_names="short_first", reader="from_file_lazy", tmpl=None),
         dict(base, other_fs=True, fmt="raw", writer="to_file", reader="from_file_lazy", tmpl=None),
         dict(base, snapshot=True, N=3000),
         dict(base, snapshot=True, N=(1 << 20) + 77, sw=2, ch=1),
@@ -394,6 +433,9 @@ def strategy(draw, maxN):
                 mr=draw(st.one_of(st.none(), st.tuples(st.integers(0, N + 4), st.sampled_from([0, 0.25, 0.5, 0.75])).map(list))))
     case["riff_prefix"] = fmt == "raw" and draw(rarely(5))
     case["other_fs"] = draw(rarely(5))
+    case["dotted_dir"] = draw(rarely(4))
+    case["relative_dot"] = draw(st.sampled_from([0, 0, 0, 0, 1, 2])) if not case["other_fs"] else 0
+    case["both_names"] = draw(st.sampled_from([None, None, None, "short_first", "long_first"]))
     if draw(rarely(25)):
         case = dict(case, snapshot=True, N=draw(st.sampled_from([N, 5000, 70000, 300000])))
     return case
